@@ -561,7 +561,66 @@ def run_app(R, seed, uid, tier):
     check_zeep(R, seed, uid, ir, tier, repro)
 
 
+def bare_foreign_names(R, seed):
+    """bare methods whose request element is named in another namespace (_in_message_name='{ns}name'): the interface document must build, and what
+    its wsdl:part refers to must be a declared prefix and a declared element - whether or not that namespace holds classes of its own"""
+    import re
+    from spyne import Application, Service, rpc, Unicode, Integer, ComplexModel
+    from spyne.protocol.soap import Soap11
+    Item = type('BfItem', (ComplexModel,), {'__namespace__': 'urn:vf:c07:items', 'a': Integer})
+    Other = type('BfOther', (ComplexModel,), {'__namespace__': 'urn:vf:c07:other', 'b': Integer})
+    for arg, argname in ((Item, 'complex'), (Unicode, 'primitive')):
+        for populated in (False, True):
+            R.evaluations += 1
+
+            def mk(name, *a, **kw):
+                def f(ctx, v):
+                    return v
+                f.__name__ = name
+                return rpc(*a, **kw)(f)
+            d = {'put': mk('put', arg, _returns=arg, _body_style='bare', _in_message_name='{urn:vf:c07:other}putIt')}
+            if populated:
+                d['other'] = mk('other', Other, _returns=Other)
+            S = type('BfSvc', (Service,), d)
+            case = {'scenario': 'bare_foreign_names', 'seed': seed, 'argument': argname, 'namespace_has_classes': populated}
+            try:
+                app = Application([S], 'urn:vf:c07:bf', name='Bf', in_protocol=Soap11(), out_protocol=Soap11())
+                w = app.interface.docs.wsdl11
+                w.build_interface_document('http://localhost/')
+                doc = w.get_interface_document()
+            except Exception as e:
+                R.violation('interface document of a bare method with a request element in another namespace cannot be built (%s argument, namespace %s): %s: %s' % (
+                            argname, 'with classes' if populated else 'without classes', type(e).__name__, str(e)[:100]), case, mech='bare_foreign_in_message_name:build_raises')
+                continue
+            root = etree.fromstring(doc)
+            R.count('bare_foreign_documents_built')
+            declared = set()
+            for sch in root.iter('{http://www.w3.org/2001/XMLSchema}schema'):
+                for el in sch.findall('{http://www.w3.org/2001/XMLSchema}element'):
+                    declared.add('{%s}%s' % (sch.get('targetNamespace'), el.get('name')))
+            bad = None
+            for part in root.iter('{http://schemas.xmlsoap.org/wsdl/}part'):
+                ref = part.get('element')
+                if ref is None:
+                    continue
+                pfx, _, local = ref.rpartition(':')
+                uri = part.nsmap.get(pfx or None)
+                if uri is None:
+                    bad = 'wsdl:part refers to %r: prefix %r is not declared' % (ref, pfx)
+                    break
+                if '{%s}%s' % (uri, local) not in declared:
+                    bad = 'wsdl:part refers to {%s}%s, which no schema declares' % (uri, local)
+                    break
+            if bad:
+                R.violation('bare method with a request element in another namespace (%s argument, namespace %s): %s' % (argname, 'with classes' if populated else 'without classes', bad),
+                            case, mech='bare_foreign_in_message_name:part_unresolved')
+            else:
+                R.nontrivial('bare_foreign', argname, populated)
+
+
 def run(spec, R):
+    if spec['first'] == 0:
+        bare_foreign_names(R, spec['seed'])
     for uid in range(spec['first'], spec['first'] + spec['count']):
         run_app(R, spec['seed'], uid, spec['tier'])
     if spec['first'] == 0:
@@ -571,6 +630,11 @@ def run(spec, R):
 
 def replay(v, R):
     c = v['repro']
+    if c.get('scenario') == 'bare_foreign_names':
+        bare_foreign_names(R, c['seed'])
+        for x in R.violations[:10]:
+            print('replayed:', x.get('mech'), x.get('what')[:300])
+        return
     run_app(R, c['seed'], c['uid'], 'quick')
     for x in R.violations[:10]:
         print('replayed:', x.get('mech'), x.get('what')[:300])
